@@ -2336,8 +2336,10 @@ def dlp_post(c, p):
     lost = or_(too_old, reordered)
     pushes = [x for x in p.called(r"Vec.*::push") if x[1][0] == ("ref", d["lost_packets"][0])]
     kept = p.called(r"Instant as Add<Duration>>::add$")          # next_loss_time = info.time_sent + loss_delay: the packet stays outstanding
-    probe = d["in_flight_mtu_probe"][0]
-    is_probe = and_(eq(c.inp(probe + "#discr", I64), bv(1)), eq(c.inp(probe + "@Some.0", BV64), pk))
+    # the in-flight MTU probe is a packet of the Data space: a packet of another space with the same number is not it
+    # (dlp_pre: the loop is entered with `in_flight_mtu_probe` set only for the Data space - e2_detect_lost_prefix)
+    probe_loc = d["in_flight_mtu_probe"][0]
+    is_probe = and_(eq(c.inp(probe_loc + "#discr", I64), bv(1)), eq(c.inp(probe_loc + "@Some.0", BV64), pk))
     if kept:
         return "false" if pushes else not_(lost)
     if len(pushes) > 1:
@@ -2349,12 +2351,36 @@ def dlp_post(c, p):
     return and_(lost, is_probe, eq(c.ex.read_key(st, d["lost_mtu_probe"][0] + "#discr", I64).t, bv(1)))
 
 
+def dlp_pre(c):
+    probe_loc = c.fn.debug["in_flight_mtu_probe"][0]
+    return or_(not_(eq(c.inp(probe_loc + "#discr", I64), bv(1))), eq(c.inp("_3#discr", I64), bv(c.ex.enums["SpaceId"].index("Data"))))
+
+
+def dlx_post(c, p):
+    st = p.p.state
+    if p.p.outcome != "stop":
+        return "true"
+    probe_loc = c.fn.debug["in_flight_mtu_probe"][0]
+    some = eq(c.ex.read_key(st, probe_loc + "#discr", I64).t, bv(1))
+    # only loss detection for the Data space may regard a packet as the in-flight MTU probe
+    return or_(not_(some), eq(c.inp("_3#discr", I64), bv(c.ex.enums["SpaceId"].index("Data"))))
+
+
+Q(name="e2_detect_lost_prefix", props=["C12", "C13"], func=r"connection/mod\.rs:\d+:1: \d+:16>::detect_lost_packets$",
+  src="connection/mod.rs", within=r"^    fn detect_lost_packets\(", end_line=[r"for \(packet, info\) in space\.sent_packets\.range\(0\.\.largest_acked_packet\)"],
+  allowed_panics=r".", check_stop=True, ignore_untranslatable=r".",
+  functions=["Connection::detect_lost_packets (slice: from the function's start to the loss scan)"], pre=lambda c: "true", post=dlx_post,
+  bounds="every connection state and every packet-number space: when the loss scan starts, the packet number it treats as 'the in-flight MTU probe' is set only if loss detection runs for the Data space - MTU probes are 1-RTT packets, and a Handshake packet that happens to carry the same number is an ordinary packet (the invariant the per-iteration obligation relies on)",
+  replay=("conn_lost_probe_other_space_native", lambda m: [dict(x=0)]))
+
+
 Q(name="e2_detect_lost_iteration_slice", props=["C12"], func=r"connection/mod\.rs:\d+:1: \d+:16>::detect_lost_packets$",
   src="connection/mod.rs", within=r"^    fn detect_lost_packets\(", start_line=[r"if prev_packet != Some\(packet\.wrapping_sub\(1\)\)", r"(?#before)// An intervening packet was acknowledged"], end_line=[r"^            prev_packet = Some\(packet\);", r"if info\.ack_eliciting && due_to_ack \{"],
   allowed_panics=r".", check_stop=True,
-  functions=["Connection::detect_lost_packets (slice: one iteration of the scan over unacknowledged packets below the largest acknowledged one)"], pre=lambda c: "true", post=dlp_post,
+  functions=["Connection::detect_lost_packets (slice: one iteration of the scan over unacknowledged packets below the largest acknowledged one)"], pre=dlp_pre, post=dlp_post,
   bounds="one iteration of the loss scan from an ARBITRARY state (any packet, send time, thresholds, loop-carried variables): the packet is declared lost exactly when (RFC 9002 6.1) it was sent at least loss_delay before now or at least packet_threshold packets before the largest acknowledged one; a lost packet is pushed onto lost_packets exactly once with its own number, except the in-flight MTU probe, which is recorded as lost_mtu_probe instead; otherwise the packet stays outstanding; Instant::saturating_duration_since is opaque (asked about now and this packet's send time); the u64 overflow of packet + packet_threshold (config value near 2^64) is outside the claim",
   replay=("conn_detect_lost_native", lambda m: [dict(age_ms=10), dict(age_ms=1124), dict(age_ms=1125), dict(age_ms=5000)]))
+
 
 
 # ------------------------------------------------------------------ C17 / C01: after a Retry every early stream is scheduled again in full, its FIN included (one loop iteration, slice)
